@@ -109,10 +109,26 @@ fn entity(len: u64, inode: u64, secs: u64, nanos: u32) -> ChunkedReadFile<LenOnl
 #[kani::unwind(6)]
 #[kani::stub(<std::fs::File as crate::platform::FileExt>::read_at, stub_read_at)]
 pub fn file_range_step() {
+    range_step(false)
+}
+
+/// The same for files that can be materialised on disk (<= 64 MiB): counterexamples of this
+/// instance are replayed natively on a real temporary file.
+#[kani::proof]
+#[kani::unwind(6)]
+#[kani::stub(<std::fs::File as crate::platform::FileExt>::read_at, stub_read_at)]
+pub fn file_range_step_small() {
+    range_step(true)
+}
+
+fn range_step(small: bool) {
     let len: u64 = kani::any();
     let a: u64 = kani::any();
     let b: u64 = kani::any();
     kani::assume(a <= b && b <= len);
+    if small {
+        kani::assume(len <= 1 << 26);
+    }
     let mut i = 0;
     while i < 3 {
         let fails: bool = kani::any();
